@@ -1,10 +1,11 @@
-(* C01 — no byte stream can crash a terminal emulation.  PARTIAL: see notes/C01.md for what the theorems cover.
-   (Reconciled with the merged tree: the stream-supplied font and the DECFRA fill character no longer panic, so the
-   theorems have no known panic site left; the one remaining known class is the unbounded macro recursion.)
+(* C01 — no byte stream can crash a terminal emulation.  See notes/C01.md for what the theorems cover.
+   (Reconciled with the merged tree: the stream-supplied font and the DECFRA fill character no longer panic; since the
+   macro nesting limit (fix 2513579, MAX_MACRO_NESTING) the last known class - unbounded macro recursion - is gone too:
+   every stream of every emulation ends in a state, sections (f)-(h).)
    Statements only; proofs in Proofs/SafeProofs.v (on top of the C09 development). *)
 From Coq Require Import ZArith NArith List Bool.
 From IE Require Import Model.TermCore Model.AnsiTok Model.Emu Proofs.TermProofs Proofs.AnsiProofs Proofs.EmuProofs Proofs.SafeProofs.
-From IE Require Import Model.Petscii Proofs.WeakInv Proofs.AnsiSafeW Proofs.EmuSafeW Proofs.PetsciiProofs Proofs.MacroFuel.
+From IE Require Import Model.Petscii Proofs.WeakInv Proofs.AnsiSafeW Proofs.EmuSafeW Proofs.PetsciiProofs Proofs.MacroFuel Gen.MacroLimit.
 Import ListNotations.
 Local Open Scope Z_scope.
 
@@ -56,7 +57,7 @@ Qed.
 
 (* ---- the known class is real (witness), and the repaired ones are gone ---------------------------------------------------- *)
 Definition outcome_of (music : Z) (cs : list Z) : Z :=
-  match run EAnsi (init music false 80 25) cs with RunOk _ => 0 | RunPanic s => s | RunDiverge => -2 end.
+  match run EAnsi (init music false 80 25) cs with RunOk _ => 0 | RunPanic s => s end.
 (* number of error values of a stream (-1000 after a panic / divergence) *)
 Fixpoint errors_of (m : mach) (cs : list Z) : Z :=
   match cs with
@@ -64,11 +65,16 @@ Fixpoint errors_of (m : mach) (cs : list Z) : Z :=
   | c :: r => match step EAnsi m c with MOk m1 => errors_of m1 r | MErr m1 => 1 + errors_of m1 r | _ => -1000 end
   end.
 Definition ST : list Z := [27; 92].
-(* ESC P 1;0;1!z 1B5B312A7A ESC \  then CSI 1*z : a macro that invokes itself *)
-Example known_macro_recursion_witness :
-  outcome_of 0 ([27; 80; 49; 59; 48; 59; 49; 33; 122; 49; 66; 53; 66; 51; 49; 50; 65; 55; 65; 27; 92] ++ [27; 91; 49; 42; 122]) = -2.
+(* ESC P 1;0;1!z 1B5B312A7A ESC \  then CSI 1*z : a macro that invokes itself.  Before the fix (2513579) the code recursed
+   until the stack overflowed (old-behaviour witness: macro_recursion_reaches_every_limit below); now the stream ends in a
+   state and the invocation is ONE error value (MacroNestingTooDeep, reported by the outermost `CSI 1 * z`) *)
+Example fixed_macro_recursion :
+  outcome_of 0 ([27; 80; 49; 59; 48; 59; 49; 33; 122; 49; 66; 53; 66; 51; 49; 50; 65; 55; 65; 27; 92] ++ [27; 91; 49; 42; 122]) = 0.
 Proof. vm_compute. reflexivity. Qed.
-(* the Uncovered side of c01_ansi_stream_partial is not vacuous: that stream stops, and it stops with a macro stored *)
+Example fixed_macro_recursion_is_error :
+  errors_of (init 0 false 80 25) ([27; 80; 49; 59; 48; 59; 49; 33; 122; 49; 66; 53; 66; 51; 49; 50; 65; 55; 65; 27; 92] ++ [27; 91; 49; 42; 122]) = 1.
+Proof. vm_compute. reflexivity. Qed.
+(* the Uncovered side of c01_ansi_stream_partial is not vacuous: that stream reaches a state with a macro stored *)
 Example macro_recursion_is_uncovered :
   match run EAnsi (init 0 false 80 25) [27; 80; 49; 59; 48; 59; 49; 33; 122; 49; 66; 53; 66; 51; 49; 50; 65; 55; 65; 27; 92; 27; 91; 49; 42] with
   | RunOk m => negb (Nat.eqb (length (macros (ps (am m)))) 0) | _ => false end = true.
@@ -106,21 +112,19 @@ Example fixed_huge_margin : outcome_of 0 [27; 91; 49; 59; 50; 49; 52; 55; 52; 56
              Forall (fun x => 0 <= x) (tabs t)) /\ 0 <= cx t /\ 0 <= cy t        with mnn (Some (a, b)) := 0 <= a <= b.
    Inv09 t -> W t (Inv09_W); the initial state satisfies it; every operation keeps it and needs no more to be panic-free. *)
 
-(* (e) the ANSI parser, ANY parser state, ANY macro table, ANY nesting bound, before or after a resize: one character on a
-   W state yields an action or an error value on a W state; never a panic; the nesting overflow only while a macro is stored *)
+(* (e) the ANSI parser, ANY parser state, ANY macro table, ANY value of the nesting counter (fuel = MAX_MACRO_NESTING - counter),
+   before or after a resize: one character on a W state yields an action or an error value (ODeep = the error
+   MacroNestingTooDeep) on a W state; never a panic.  No exception left. *)
 Theorem c01_ansi_char : forall fuel m ch, W (tm m) ->
-  match astep fuel m ch with OOk m' | OErr m' => W (tm m') | OPanic _ => False | ODiverge => macros (ps m) <> [] end.
+  match astep fuel m ch with OOk m' | OErr m' | ODeep m' => W (tm m') | OPanic _ => False end.
 Proof. exact astep_char_total. Qed.
 
 (* (f) the ANSI parser and its four wrappers (wrapper e: EAnsi EAvatar EPcb ECtrlA ERenegade), EVERY stream of any length,
-   every screen size, every music / backspace option: the run ends in a state, or it stops in the macro-nesting overflow and
-   then the character at which it stops was processed with a macro stored (Stored m := macros (ps (am m)) <> []).
-   No side condition on resizes or macros; supersedes c01_ansi_stream_partial. *)
+   every screen size, every music / backspace option: the run ends in a state - every character yielded an action or an
+   error value.  No side condition on resizes or macros (before the nesting limit: "... or it stops in the macro-nesting
+   overflow at a character processed with a macro stored"); supersedes c01_ansi_stream_partial. *)
 Theorem c01_wrappers : forall e music bs w h cs,
-  wrapper e = true -> 1 <= w <= 132 -> 1 <= h <= 60 ->
-  (exists m', run e (init music bs w h) cs = RunOk m') \/
-  (run e (init music bs w h) cs = RunDiverge /\
-   exists pre c post m', cs = pre ++ c :: post /\ run e (init music bs w h) pre = RunOk m' /\ Stored m').
+  wrapper e = true -> 1 <= w <= 132 -> 1 <= h <= 60 -> exists m', run e (init music bs w h) cs = RunOk m'.
 Proof. exact c01_wrappers_proof. Qed.
 Theorem c01_wrappers_no_panic : forall e music bs w h cs s,
   wrapper e = true -> 1 <= w <= 132 -> 1 <= h <= 60 -> run e (init music bs w h) cs <> RunPanic s.
@@ -147,10 +151,28 @@ Proof.
   - destruct (c01_petscii music bs w h cs Hw Hh) as [m' E]. rewrite E. discriminate.
 Qed.
 
-(* (i) the nesting bound is only a bound: an outcome that is not the overflow is the outcome for every larger bound (the real
-   code has no bound); so a character overflows every bound iff the real recursion does not end *)
-Theorem macro_bound_is_only_a_bound : forall k fuel m ch, astep fuel m ch <> ODiverge -> astep (fuel + k) m ch = astep fuel m ch.
+(* (h') the same, positively: every stream of each of the ten emulations ends in a state (a run has no other way to end
+   than a state or a panic: the type [rout] lost its third constructor together with the macro recursion) *)
+Theorem c01_every_stream_ends : forall music bs w h cs,
+  1 <= w <= 132 -> 1 <= h <= 60 ->
+  (forall e, exists m', run e (init music bs w h) cs = RunOk m') /\ exists m', run_petscii (init music bs w h) cs = RunOk m'.
+Proof.
+  intros music bs w h cs Hw Hh. split.
+  - intro e. destruct (wrapper e) eqn:We; [apply c01_wrappers; assumption|].
+    assert (Se : standalone e = true) by (destruct e; try discriminate; reflexivity).
+    apply c01_standalone; assumption.
+  - apply c01_petscii; assumption.
+Qed.
+
+(* (i) the nesting limit only cuts: an outcome that is not the error MacroNestingTooDeep is the outcome for every larger
+   limit, hence the outcome of the code before the limit existed - the fix changes nothing but the recursion it ends *)
+Theorem macro_limit_only_cuts : forall k fuel m ch, (forall d, astep fuel m ch <> ODeep d) -> astep (fuel + k) m ch = astep fuel m ch.
 Proof. exact astep_fuel_irrelevant. Qed.
+(* (i') the OLD behaviour, as a statement about the same model: in the state reached by `ESC P 1;0;1!z 1B5B312A7A ESC \ ESC [ 1 *`
+   the character z nests to EVERY limit n (and then reports the error): with no limit - the code before 2513579 - the
+   recursion does not end (stack overflow, the former known class C01-stackoverflow:invoke_macro_by_id) *)
+Theorem macro_recursion_reaches_every_limit : forall n, astep n self_state 122 = ODeep self_after.
+Proof. exact macro_self_reaches_every_limit. Qed.
 
 (* ---- non-vacuity of the extension ------------------------------------------------------------------------------------------------ *)
 Definition CSI : list Z := [27; 91].
@@ -171,10 +193,19 @@ Example macro_replay_runs :
   match run EAvatar (init 0 false 80 25) (MACRO7 ++ CSI ++ [55; 42; 122] ++ CSI ++ [55; 42; 122]) with
   | RunOk m => (tw (mt m) =? 2) && negb (Nat.eqb (length (macros (ps (am m)))) 0) | _ => false end = true.
 Proof. vm_compute. reflexivity. Qed.
-(* the Diverge side of c01_wrappers is inhabited (the known class), through a wrapper as well *)
+(* the former known input through a wrapper as well: a state, reached with exactly one error value; the parser is back in
+   state Default and the macro is still stored *)
+Fixpoint errors_e (e : emu) (m : mach) (cs : list Z) : Z :=
+  match cs with
+  | [] => 0
+  | c :: r => match step e m c with MOk m1 => errors_e e m1 r | MErr m1 => 1 + errors_e e m1 r | _ => -1000 end
+  end.
 Example macro_recursion_through_pcboard :
-  match run EPcb (init 0 false 80 25) ([27; 80; 49; 59; 48; 59; 49; 33; 122; 49; 66; 53; 66; 51; 49; 50; 65; 55; 65; 27; 92] ++ [27; 91; 49; 42; 122]) with
-  | RunDiverge => true | _ => false end = true.
+  let cs := [27; 80; 49; 59; 48; 59; 49; 33; 122; 49; 66; 53; 66; 51; 49; 50; 65; 55; 65; 27; 92] ++ [27; 91; 49; 42; 122] in
+  (errors_e EPcb (init 0 false 80 25) cs =? 1) &&
+  match run EPcb (init 0 false 80 25) cs with
+  | RunOk m => (match st (ps (am m)) with SDefault => true | _ => false end) && negb (Nat.eqb (length (macros (ps (am m)))) 0)
+  | _ => false end = true.
 Proof. vm_compute. reflexivity. Qed.
 (* PETSCII: reverse video on, print, shift mode, C128 escapes, cursor keys, clear: a state; an unsupported control code is an error value *)
 Example petscii_runs :
@@ -182,10 +213,30 @@ Example petscii_runs :
   | RunOk m => (cx (mt m) =? 0) && (cy (mt m) =? 0) | _ => false end = true.
 Proof. vm_compute. reflexivity. Qed.
 Example petscii_error_value : petscii_step (init 0 false 40 25) 128 = MErr (init 0 false 40 25). Proof. vm_compute. reflexivity. Qed.
-(* macro 1 = "A", macro 2 = "ESC [ 1 * z": invoking macro 2 needs nesting 2: bound 1 overflows, bound 2 (and 32) end in a state *)
+(* macro 1 = "A", macro 2 = "ESC [ 1 * z": invoking macro 2 needs nesting 2: with a budget of 1 it is the nesting error, with 2
+   (and with the limit of the code) it ends in a state *)
 Example nesting_two :
   match run EAnsi (init 0 false 80 25) ([27; 80; 49; 59; 48; 59; 49; 33; 122; 52; 49; 27; 92] ++ [27; 80; 50; 59; 48; 59; 49; 33; 122; 49; 66; 53; 66; 51; 49; 50; 65; 55; 65; 27; 92] ++ [27; 91; 50; 42]) with
-  | RunOk m => (match astep 1 (am m) 122 with ODiverge => true | _ => false end) && (match astep 2 (am m) 122 with OOk _ => true | _ => false end)
-               && (match astep 32 (am m) 122 with OOk _ => true | _ => false end)
+  | RunOk m => (match astep 1 (am m) 122 with ODeep _ => true | _ => false end) && (match astep 2 (am m) 122 with OOk _ => true | _ => false end)
+               && (match ansi_step (am m) 122 with OOk _ => true | _ => false end)
   | _ => false end = true.
+Proof. vm_compute. reflexivity. Qed.
+(* the limit is exact: a chain of macros, macro 1 = "A", macro k = `ESC [ k-1 * z` (hex definitions).  Invoking macro
+   MAX_MACRO_NESTING (= 16 levels) prints the A and is no error; invoking macro MAX_MACRO_NESTING + 1 is one error value, prints
+   nothing (the innermost invocation is refused before it replays anything) and leaves the parser in state Default *)
+Definition hexd (v : Z) : Z := if v <? 10 then 48 + v else 55 + v.
+Definition hex2 (b : Z) : list Z := [hexd (b / 16); hexd (b mod 16)].
+Definition dec2 (n : Z) : list Z := if n <? 10 then [48 + n] else [48 + n / 10; 48 + n mod 10].
+Definition defmacro (k : Z) (body : list Z) : list Z := [27; 80] ++ dec2 k ++ [59; 48; 59; 49; 33; 122] ++ flat_map hex2 body ++ ST.
+Definition chain (n : nat) : list Z :=
+  defmacro 1 [65] ++ flat_map (fun i => let k := Z.of_nat i in defmacro k ([27; 91] ++ dec2 (k - 1) ++ [42; 122])) (seq 2 (n - 1)).
+Definition invoke_top (n : nat) : list Z := chain (S n) ++ [27; 91] ++ dec2 (Z.of_nat n) ++ [42; 122].
+Example nesting_at_the_limit :
+  (errors_of (init 0 false 80 25) (invoke_top MAX_MACRO_NESTING) =? 0) &&
+  match run EAnsi (init 0 false 80 25) (invoke_top MAX_MACRO_NESTING) with RunOk m => cx (mt m) =? 1 | _ => false end = true.
+Proof. vm_compute. reflexivity. Qed.
+Example nesting_beyond_the_limit :
+  (errors_of (init 0 false 80 25) (invoke_top (S MAX_MACRO_NESTING)) =? 1) &&
+  match run EAnsi (init 0 false 80 25) (invoke_top (S MAX_MACRO_NESTING)) with
+  | RunOk m => (cx (mt m) =? 0) && (match st (ps (am m)) with SDefault => true | _ => false end) | _ => false end = true.
 Proof. vm_compute. reflexivity. Qed.
